@@ -125,6 +125,10 @@ class Unit:
                 items += tomllib.load(f).get("item", [])
         self.desc["item"] = items + self.desc.get("item", [])
         for it in self.desc["item"]:
+            kd = self.desc.get("keep_derives", {}).get(it.get("path"))
+            if kd:
+                it["keep_derives"] = kd
+        for it in self.desc["item"]:
             cf = it.get("contract_from")
             if cf:
                 with open(os.path.join(ROOT, "contracts", cf, "unit.toml"), "rb") as f:
@@ -241,7 +245,7 @@ class Unit:
                            "lines": [item.line_start, item.line_end], "sha256": item.sha256})
 
     def _emit_decl(self, gen, it, item, file):
-        text = splice.normalise(item, self.features, self.cfg_log)
+        text = splice.normalise(item, self.features, self.cfg_log, tuple(it.get("keep_derives", [])))
         kind, path = it["kind"], it["path"]
         self._record(item, file, kind, path, "type")
         gen.add("// ---- %s %s %s:%d-%d sha256=%s" % (kind, path, file, item.line_start, item.line_end, item.sha256[:16]),
@@ -464,6 +468,14 @@ class Unit:
             if k > len(st):
                 raise SpliceError("%s: %s: only %d statements" % (name, pos, len(st)))
             return st[k - 1][0] if mt.group(2) == "before" else st[k - 1][1]
+        mt = re.match(r"^marker:([\w.]+)$", pos)
+        if mt:
+            # positions defined by a desugaring template (markers are comments inside the generated template text)
+            mk = "/*@vx:%s@*/" % mt.group(1)
+            k = sh.text.find(mk)
+            if k < 0:
+                raise SpliceError("%s: marker %s not present" % (name, mk))
+            return k + len(mk)
         raise SpliceError("%s: unknown position %s" % (name, pos))
 
 
